@@ -144,6 +144,7 @@ func genTable(r *rng, idx int, n int) srvCase {
 	}
 	client := speer{addr: randAddr(r, 0), id: idInBucket(r, root, r.intn(160))}
 	client6 := speer{addr: randAddr(r, 1), id: idInBucket(r, root, r.intn(160))}
+	clientM := speer{addr: randAddr(r, 2), id: idInBucket(r, root, r.intn(160))}
 	for len(c.evs) < n {
 		p := peers[r.intn(len(peers))]
 		switch r.intn(16) {
@@ -159,7 +160,20 @@ func genTable(r *rng, idx int, n int) srvCase {
 			c.evs = append(c.evs, sev{kind: "addnode", src: p.addr, id: p.id})
 		case 10:
 			// variants: same id other address / same address other id / own id / zero id / read-only
-			switch r.intn(5) {
+			switch r.intn(6) {
+			case 5:
+				// the same contact through the other representation of its IPv4 address
+				if ip4 := p.addr.IP.To4(); ip4 != nil {
+					alt := udp(ip4, p.addr.Port)
+					if len(p.addr.IP) == 4 {
+						alt = udp(mapped(ip4), p.addr.Port)
+					}
+					if r.bool() {
+						c.evs = append(c.evs, sev{kind: "addnode", src: alt, id: p.id})
+					} else {
+						c.evs = append(c.evs, qpkt(alt, "ping", "x", argsID(p.id)))
+					}
+				}
 			case 0:
 				c.evs = append(c.evs, qpkt(randAddr(r, 0), "ping", "x", argsID(p.id)))
 			case 1:
@@ -185,8 +199,11 @@ func genTable(r *rng, idx int, n int) srvCase {
 		case 12, 13, 14:
 			// lookups served from the table: find_node / get_peers / get with targets per bucket
 			cl := client
-			if r.intn(3) == 0 {
+			switch r.intn(6) {
+			case 0, 1:
 				cl = client6
+			case 2:
+				cl = clientM
 			}
 			var tg [20]byte
 			switch r.intn(5) {
@@ -207,6 +224,15 @@ func genTable(r *rng, idx int, n int) srvCase {
 				a.InfoHash = tg
 			} else {
 				a.Target = tg
+			}
+			if r.intn(4) == 0 {
+				// a stray value in the field the method does not read
+				stray := idInBucket(r, root, bucketSpread[r.intn(len(bucketSpread))])
+				if q == "get_peers" {
+					a.Target = stray
+				} else {
+					a.InfoHash = stray
+				}
 			}
 			c.evs = append(c.evs, qpkt(cl.addr, q, string(r.bytes(1+r.intn(3))), a))
 		case 15:
@@ -541,6 +567,10 @@ func genMisc(r *rng, idx int) srvCase {
 	c.evs = append(c.evs, sev{kind: "pkt", src: src, raw: []byte("d1:e3:bad1:t2:aa1:y1:ee")})
 	c.evs = append(c.evs, sev{kind: "pkt", src: src, raw: []byte("d1:ad2:id20:aaaaaaaaaaaaaaaaaaaa2:roi1ee1:q4:ping1:t2:aa1:y1:qe")})
 	c.evs = append(c.evs, ping(randAddr(r, 1)))
+	zoned := udp([]byte{0xfe, 0x80, 0, 0, 0, 0, 0, 0, 0, 0, 0, 0, 0, 0, 0, byte(1 + r.intn(200))}, 1+r.intn(65535))
+	zoned.Zone = "eth1"
+	c.evs = append(c.evs, ping(zoned))
+	c.evs = append(c.evs, qpkt(zoned, "find_node", "zf", &krpc.MsgArgs{ID: id, Target: root}))
 	qid := 1
 	c.evs = append(c.evs, sev{kind: "qstart", qid: qid, src: randAddr(r, 0), q: "ping", rated: true})
 	if r.bool() {
